@@ -18,21 +18,21 @@ type cval struct {
 }
 
 type CEnv struct {
-	ex      *Executor
-	prog    *Program
-	cs      *ContractSet
-	fn      *ssa.Function
-	fc      *FuncContract
-	st      *State // state the trace/heap are read from
-	vars    map[string]cval
-	ret     Value
-	panicky bool
-	ref     int // reference event index (-1: none)
-	heap    map[string]*Term
-	old     bool
+	ex         *Executor
+	prog       *Program
+	cs         *ContractSet
+	fn         *ssa.Function
+	fc         *FuncContract
+	st         *State // state the trace/heap are read from
+	vars       map[string]cval
+	ret        Value
+	panicky    bool
+	ref        int // reference event index (-1: none)
+	heap       map[string]*Term
+	old        bool
 	forceFinal bool
-	scratch *State // state receiving facts generated during evaluation
-	depth   int
+	scratch    *State // state receiving facts generated during evaluation
+	depth      int
 }
 
 type evalError struct{ msg string }
